@@ -53,6 +53,15 @@ type Contract struct {
 	NoFrame    bool
 	Ghost      []BoundVar
 	Witness    []WitnessDecl
+	Holds      []HoldDecl
+	Acquires   []HoldDecl // locks the function takes (and releases) itself
+}
+
+// HoldDecl: a lock the caller holds on entry (and still holds on return).
+type HoldDecl struct {
+	Lock  *SExpr // expression denoting the struct that contains the lock
+	Field string
+	Mode  lockMode
 }
 
 // WitnessDecl: a name usable in postconditions that stands for the final value
@@ -103,7 +112,7 @@ type PkgSpec struct {
 	InitOnly  []string
 }
 
-var keywordRe = regexp.MustCompile(`^(func|witness|pred|pure|axiom|lemma|extern|closed|protocol|lock|property|requires|ensures|case|modifies|loop|panics|inline|trusted|emits|allocs|unroll|shared|ghost|inv|threads|on|guar|protects|discipline|initonly|atomic|noframe|level|assume|self|local|single|init|rely|counter)\b`)
+var keywordRe = regexp.MustCompile(`^(func|witness|pred|pure|axiom|lemma|extern|closed|protocol|lock|property|requires|ensures|case|modifies|loop|panics|inline|trusted|emits|allocs|unroll|shared|ghost|inv|threads|on|guar|protects|discipline|initonly|atomic|noframe|level|assume|self|local|single|init|rely|counter|holds|acquires)\b`)
 
 // parseContractFile extracts the //@ lines of a file.
 func parseContractComments(f *ast.File, fname string) []specLine {
@@ -303,14 +312,11 @@ func parsePkgSpec(pkg string, lines []specLine) (*PkgSpec, error) {
 			ps.Protos[curProto.Name] = curProto
 			cur, curLock = nil, nil
 		case "lock":
-			curLock = &LockSpec{Pkg: pkg, Where: l.where}
-			f := strings.Fields(rest)
-			curLock.Lock = f[0]
-			if i := strings.Index(rest, "protects"); i >= 0 {
-				for _, x := range strings.Split(rest[i+len("protects"):], ",") {
-					curLock.Protects = append(curLock.Protects, strings.TrimSpace(x))
-				}
+			ls, err := parseLockHeader(rest, pkg, l.where)
+			if err != nil {
+				return nil, err
 			}
+			curLock = ls
 			ps.Locks = append(ps.Locks, curLock)
 			cur, curProto = nil, nil
 		default:
@@ -464,6 +470,39 @@ func (c *Contract) parseLine(curCase **Case, kw, rest, where string) error {
 		c.Atomic = append(c.Atomic, rest)
 	case "ghost":
 		c.Ghost = append(c.Ghost, parseParams(rest)...)
+	case "acquires":
+		// acquires <expr>.<lockfield>[, ...]
+		for _, a := range splitTop(rest) {
+			a = strings.TrimSpace(a)
+			i := strings.LastIndex(a, ".")
+			if i < 0 {
+				return fmt.Errorf("%s: acquires <expr>.<lockfield>", where)
+			}
+			x, err := parseSpec(a[:i])
+			if err != nil {
+				return fmt.Errorf("%s: %v", where, err)
+			}
+			c.Acquires = append(c.Acquires, HoldDecl{Lock: x, Field: a[i+1:], Mode: lockW})
+		}
+	case "holds":
+		// holds <expr>.<lockfield> R|W
+		f := strings.Fields(rest)
+		if len(f) != 2 || (f[1] != "R" && f[1] != "W") {
+			return fmt.Errorf("%s: holds <expr>.<lockfield> R|W", where)
+		}
+		i := strings.LastIndex(f[0], ".")
+		if i < 0 {
+			return fmt.Errorf("%s: holds <expr>.<lockfield> R|W", where)
+		}
+		x, err := parseSpec(f[0][:i])
+		if err != nil {
+			return fmt.Errorf("%s: %v", where, err)
+		}
+		m := lockR
+		if f[1] == "W" {
+			m = lockW
+		}
+		c.Holds = append(c.Holds, HoldDecl{Lock: x, Field: f[0][i+1:], Mode: m})
 	case "witness":
 		// witness b int = idx
 		parts := strings.SplitN(rest, "=", 2)
